@@ -83,6 +83,7 @@ type Scenario struct {
 	LiveSeed uint64      `json:"live_seed,omitempty"` // kind "live": the case is regenerated from (seed, index): its head moves on a real node
 	LiveIdx  int         `json:"live_idx,omitempty"`
 	ProbeLo  uint64      `json:"probe_lo,omitempty"` // boundary scenarios: probe [ProbeLo, ProbeLo+15] and 0 instead of [0,14]
+	Ticks    []TickSpec  `json:"ticks,omitempty"`    // kind "pscript": the answers the real Poller gets, tick by tick (pscript.go)
 }
 
 // ---- universe ---------------------------------------------------------------------------------
